@@ -3,6 +3,12 @@
 DS = "deterministic simulation with fault injection"
 
 ENGINES = [
+    {"name": "qapsim", "path": "sim/qapsim.py",
+     "serves_properties": ["C12"],
+     "kind_free_text": "the qaptools backend as a small distributed system in one process: real pysnark.qaptools.* "
+                       "modules over a simulated directory (SimFS: buffer capacity, visibility on flush/close/"
+                       "last reference, injectable write errors), six external tools replaced by in-process fakes that "
+                       "read the directory as visible at call time and can be made to fail, multi-run histories"},
     {"name": "exitsim", "path": "sim/exitsim.py",
      "serves_properties": ["C18", "C19", "C20"],
      "kind_free_text": "one fresh interpreter per run: generated script with a terminator at a chosen statement "
@@ -39,6 +45,11 @@ _P = "seeded search over lying-prover fault schedules (deterministic simulation,
 _X = "seeded search over crash points x termination modes x configurations, one fresh interpreter per run (deterministic simulation, crash injection)"
 
 CHECK_META = {
+    "C12": {"engine": "qapsim", "design_ref": "3/C12", "technique": "seeded search over I/O schedules, tool failures and multi-run directory histories on a simulated file system (deterministic simulation with fault injection)",
+            "text": "file visibility (writer buffer capacity as a fault), external-process failures, write errors, two "
+                    "runs in one directory; independent parser/evaluator of the equation grammar as oracle; sampling",
+            "note": "SimFS is my model of CPython file semantics; the fake tools are my reading of the grammar; the real "
+                    "binaries are not available offline"},
     "C13": {"engine": "tracesim (LC-pool histories)", "design_ref": "3/C13", "technique": "seeded search over operation histories on shared objects (deterministic simulation); coefficient-vector reference model",
             "text": "operation histories over a shared pool of linear combinations per backend class, every pool member "
                     "compared with a coefficient-vector model after every step (operand immutability / aliasing), "
